@@ -238,12 +238,16 @@ impl RollingFileAppender {
             // failed roll must keep what has been written since
             let first = !self.opened.swap(true, Ordering::SeqCst);
             let append = self.append || !first;
+            // always O_APPEND (every write goes to the end of the file, also after another
+            // writer or an external truncation); truncate mode empties the file explicitly
             let file = OpenOptions::new()
                 .write(true)
-                .append(append)
-                .truncate(!append)
+                .append(true)
                 .create(true)
                 .open(&self.path)?;
+            if !append {
+                file.set_len(0)?;
+            }
             let len = if append {
                 file.metadata()?.len()
             } else {
